@@ -249,6 +249,64 @@ theorem writeCells_inside (m : Cells) (a : Int) (vs : List Nat) (k : Nat) (h : k
   have : (a + (k : Int) - a).toNat = k := by omega
   rw [this, List.getElem?_eq_getElem h]
 
+/-! ### algebra of writes inside a block (spec level; the block-level counterparts are C18.set_commute_disjoint etc.) -/
+private theorem filterMap_congr' {α β : Type} (l : List α) (f g : α → Option β) (h : ∀ x ∈ l, f x = g x) :
+    l.filterMap f = l.filterMap g := by
+  induction l with
+  | nil => rfl
+  | cons x xs ih =>
+    have hx := h x (List.mem_cons_self ..)
+    have ih' := ih (fun y hy => h y (List.mem_cons_of_mem _ hy))
+    simp only [List.filterMap_cons, hx, ih']
+
+/-- writes to disjoint ranges of a block commute -/
+theorem writeCells_commute_disjoint (m : Cells) (a₁ a₂ : Int) (vs ws : List Nat)
+    (hd : a₁ + vs.length ≤ a₂ ∨ a₂ + ws.length ≤ a₁) :
+    writeCells (writeCells m a₁ vs) a₂ ws = writeCells (writeCells m a₂ ws) a₁ vs := by
+  funext i
+  unfold writeCells
+  by_cases c₁ : a₁ ≤ i ∧ i < a₁ + vs.length <;> by_cases c₂ : a₂ ≤ i ∧ i < a₂ + ws.length
+  · exfalso; omega
+  · rw [if_neg c₂, if_pos c₁, if_pos c₁]
+  · rw [if_pos c₂, if_neg c₁, if_pos c₂]
+  · rw [if_neg c₂, if_neg c₁, if_neg c₁, if_neg c₂]
+
+/-- the last write to a range wins -/
+theorem writeCells_overwrite (m : Cells) (a : Int) (vs ws : List Nat) (hl : ws.length = vs.length) :
+    writeCells (writeCells m a vs) a ws = writeCells m a ws := by
+  funext i
+  unfold writeCells
+  by_cases c : a ≤ i ∧ i < a + ws.length
+  · rw [if_pos c, if_pos c]
+  · rw [if_neg c, if_neg c, if_neg (by omega)]
+
+/-- read-your-writes for a whole range: reading back the written range returns exactly the written values -/
+theorem readCells_after_write (m : Cells) (a : Int) (vs : List Nat) :
+    readCells (writeCells m a vs) a vs.length = vs := by
+  unfold readCells
+  have h : ∀ k ∈ List.range vs.length, writeCells m a vs (a + Int.ofNat k) = some (vs.getD k 0) := by
+    intro k hk
+    have hk' : k < vs.length := List.mem_range.mp hk
+    have := writeCells_inside m a vs k hk'
+    simp only [Int.ofNat_eq_natCast]
+    rw [this]; simp [List.getD, List.getElem?_eq_getElem hk']
+  rw [filterMap_congr' _ _ _ h, List.filterMap_eq_map']
+  apply List.ext_getElem
+  · simp
+  · intro k h1 h2
+    simp [List.getD, List.getElem?_eq_getElem h2]
+
+/-- a write outside a range is invisible to a read of that range -/
+theorem readCells_after_disjoint_write (m : Cells) (a₁ a₂ : Int) (vs : List Nat) (n : Nat)
+    (hd : a₁ + vs.length ≤ a₂ ∨ a₂ + n ≤ a₁) :
+    readCells (writeCells m a₁ vs) a₂ n = readCells m a₂ n := by
+  unfold readCells
+  apply filterMap_congr'
+  intro k hk
+  have hk' : k < n := List.mem_range.mp hk
+  apply writeCells_outside
+  simp only [Int.ofNat_eq_natCast]; omega
+
 /-- mask write result on 16 bits, with the worked example of the spec (v1.1b3 §6.16) -/
 example : ((0x12 &&& 0xF2) ||| (0x25 &&& (0xFFFF - 0xF2))) = 0x17 := by decide
 
